@@ -30,6 +30,8 @@ import (
 
 const vsPath = "github.com/free5gc/go-upf/internal/verif/vsched"
 
+var mapOnly bool
+
 func die(f string, a ...interface{}) {
 	fmt.Fprintf(os.Stderr, "rewrite: "+f+"\n", a...)
 	os.Exit(2)
@@ -45,6 +47,7 @@ func main() {
 	tags := flag.String("tags", "verif,vsched", "build tags")
 	flag.BoolVar(&racesOn, "races", false, "insert memory-access reports for the happens-before race oracle")
 	accessOnly := flag.String("accessonly", "", "comma-separated packages that get ONLY the access reports of -races (their channel / go / timer constructs stay as they are: their goroutines are not managed)")
+	flag.BoolVar(&mapOnly, "maponly", false, "rewrite ONLY range-over-map statements (deterministic, harness-chosen iteration order for the free-running flavours)")
 	flag.Parse()
 	if *out == "" || flag.NArg() == 0 {
 		die("usage")
@@ -199,7 +202,20 @@ func rewritePkg(fset *token.FileSet, imp types.Importer, repo, pkgdir string, ov
 	}
 	for i, f := range files {
 		rw := &rewriter{fset: fset, info: info, inv: inv, file: names[i], pkg: tpkg}
-		if accessOnly {
+		if mapOnly {
+			rw.skip = map[ast.Node]bool{}
+			rw.cur = f
+			astutil.Apply(f, nil, func(c *astutil.Cursor) bool {
+				if x, ok := c.Node().(*ast.RangeStmt); ok {
+					rw.mapRange(x)
+				}
+				return true
+			})
+			if !rw.changed {
+				continue
+			}
+			astutil.AddNamedImport(fset, f, "vsched", vsPath)
+		} else if accessOnly {
 			rw.skip = map[ast.Node]bool{}
 			rw.cur = f
 			rw.racesPass(f)
@@ -249,7 +265,9 @@ func (r *rewriter) pos(n ast.Node) string {
 	return fmt.Sprintf("%s:%d", filepath.Base(p.Filename), p.Line)
 }
 
-func vs(name string) ast.Expr { return &ast.SelectorExpr{X: ast.NewIdent("vsched"), Sel: ast.NewIdent(name)} }
+func vs(name string) ast.Expr {
+	return &ast.SelectorExpr{X: ast.NewIdent("vsched"), Sel: ast.NewIdent(name)}
+}
 
 func call(fn ast.Expr, args ...ast.Expr) *ast.CallExpr { return &ast.CallExpr{Fun: fn, Args: args} }
 
@@ -376,42 +394,8 @@ func (r *rewriter) file2(f *ast.File) {
 			c.Replace(&ast.BlockStmt{List: list})
 			r.changed = true
 		case *ast.RangeStmt:
-			if tv, ok := r.info.Types[x.X]; ok && tv.Type != nil {
-				if _, isMap := tv.Type.Underlying().(*types.Map); isMap && !strings.HasPrefix(filepath.Base(r.file), "zz_verif") {
-					// for k, v := range m  ->  for _, e := range vsched.MapEntries(m) { if !e.Live() { continue }; k, v := e.K, e.Val(); ... }
-					r.inv["range-over-map"]++
-					r.n++
-					e := ast.NewIdent(fmt.Sprintf("vs_e%d", r.n))
-					pre := []ast.Stmt{&ast.IfStmt{Cond: &ast.UnaryExpr{Op: token.NOT, X: call(&ast.SelectorExpr{X: e, Sel: ast.NewIdent("Live")})},
-						Body: &ast.BlockStmt{List: []ast.Stmt{&ast.BranchStmt{Tok: token.CONTINUE}}}}}
-					named := func(ex ast.Expr) bool {
-						if ex == nil {
-							return false
-						}
-						id, isID := ex.(*ast.Ident)
-						return !isID || id.Name != "_"
-					}
-					var lhs, rhs []ast.Expr
-					if named(x.Key) {
-						lhs = append(lhs, x.Key)
-						rhs = append(rhs, &ast.SelectorExpr{X: e, Sel: ast.NewIdent("K")})
-					}
-					if named(x.Value) {
-						lhs = append(lhs, x.Value)
-						rhs = append(rhs, call(&ast.SelectorExpr{X: e, Sel: ast.NewIdent("Val")}))
-					}
-					if len(lhs) > 0 {
-						pre = append(pre, &ast.AssignStmt{Lhs: lhs, Tok: x.Tok, Rhs: rhs})
-						if x.Tok == token.DEFINE {
-							// the loop variables may be unused in the body only if they were "_": nothing to do
-						}
-					}
-					x.Body.List = append(pre, x.Body.List...)
-					x.Key, x.Value, x.Tok = ast.NewIdent("_"), e, token.DEFINE
-					x.X = call(vs("MapEntries"), x.X)
-					r.changed = true
-					return true
-				}
+			if r.mapRange(x) {
+				return true
 			}
 			if !r.isChan(x.X) {
 				return true
@@ -512,6 +496,48 @@ func (r *rewriter) file2(f *ast.File) {
 			}
 		}
 	}
+}
+
+// mapRange rewrites  for k, v := range m  (m a map) into an iteration over vsched.MapEntries(m).
+func (r *rewriter) mapRange(x *ast.RangeStmt) bool {
+	if tv, ok := r.info.Types[x.X]; ok && tv.Type != nil {
+		if _, isMap := tv.Type.Underlying().(*types.Map); isMap && !strings.HasPrefix(filepath.Base(r.file), "zz_verif") {
+			// for k, v := range m  ->  for _, e := range vsched.MapEntries(m) { if !e.Live() { continue }; k, v := e.K, e.Val(); ... }
+			r.inv["range-over-map"]++
+			r.n++
+			e := ast.NewIdent(fmt.Sprintf("vs_e%d", r.n))
+			pre := []ast.Stmt{&ast.IfStmt{Cond: &ast.UnaryExpr{Op: token.NOT, X: call(&ast.SelectorExpr{X: e, Sel: ast.NewIdent("Live")})},
+				Body: &ast.BlockStmt{List: []ast.Stmt{&ast.BranchStmt{Tok: token.CONTINUE}}}}}
+			named := func(ex ast.Expr) bool {
+				if ex == nil {
+					return false
+				}
+				id, isID := ex.(*ast.Ident)
+				return !isID || id.Name != "_"
+			}
+			var lhs, rhs []ast.Expr
+			if named(x.Key) {
+				lhs = append(lhs, x.Key)
+				rhs = append(rhs, &ast.SelectorExpr{X: e, Sel: ast.NewIdent("K")})
+			}
+			if named(x.Value) {
+				lhs = append(lhs, x.Value)
+				rhs = append(rhs, call(&ast.SelectorExpr{X: e, Sel: ast.NewIdent("Val")}))
+			}
+			if len(lhs) > 0 {
+				pre = append(pre, &ast.AssignStmt{Lhs: lhs, Tok: x.Tok, Rhs: rhs})
+				if x.Tok == token.DEFINE {
+					// the loop variables may be unused in the body only if they were "_": nothing to do
+				}
+			}
+			x.Body.List = append(pre, x.Body.List...)
+			x.Key, x.Value, x.Tok = ast.NewIdent("_"), e, token.DEFINE
+			x.X = call(vs("MapEntries"), x.X)
+			r.changed = true
+			return true
+		}
+	}
+	return false
 }
 
 // enclosing returns the name of the function declaration that contains n.
